@@ -703,6 +703,8 @@ val run_handlers :
 
 val fail_of : 'a1 res -> world * fail option
 
+val builtin_effect : ekind -> evv -> eloc -> world -> unit res
+
 val deliver_one :
   (hinfo -> logent -> n -> script) -> qitem -> world -> (qitem
   list * world) * fail option
